@@ -358,7 +358,7 @@ pub fn shape_cap(idx: u64) -> usize {
 // the history driver
 
 fn trace_push(trace: &mut Vec<String>, s: String) {
-    if trace.len() >= 48 {
+    if trace.len() >= 20 {
         trace.remove(0);
     }
     trace.push(s);
@@ -710,7 +710,7 @@ pub fn run(args: &Args) -> i32 {
          without any disagreement; distinct = distinct (shape, operation, key) traces",
     );
     let n_shards = 160u64;
-    let rounds = args.scale(12, 160);
+    let rounds = args.scale(400, 5_000);
     vcommon::monitor::run_shards(&mut mon, args.threads, n_shards, |shard, m| {
         let mut rng = Rng::derive(args.seed, shard, 34);
         for r in 0..rounds {
